@@ -58,10 +58,6 @@ def run(ck: Checker):
     ck.rule('C08.ARGS', 'no operand label list is mutated in place')
     ck.rule('C08.ENDIAN', 'operands are reversed at entry and every returned product converted back under big_endian')
     ck.rule('C08.PLACEHOLDER', 'placeholder-filled tables are completely overwritten before use in the result (where the function is loop-bounded)')
-    ck.rule('C08.GEN', 'generate_mul / generate_square instantiated for every member of their mode enumerations, widths 1 and 3, both endiannesses: the generated circuit computes a * b / a^2 on every operand value (every mode has a generator, the entry point dispatches on it, forwards the endianness and outputs exactly the returned bits)')
-    from .. import num_folds as _nf
-    _nf.fold_generate(ck, 'C08.GEN')
-    ck.floor('C08.GEN', 2)
     # shape rules about the same clauses: the registry as a dictionary literal of plain functions, the text of the dispatch, the
     # split-and-recombine pattern of the Karatsuba family (C08.NUM instantiates those at the widths that trigger the recursion)
     with ck.soft('C08.GEN (generate_* instantiated for every mode)'):
@@ -99,6 +95,10 @@ def run(ck: Checker):
     gadget_rules(ck, G.GadgetBench(repo, den))
     with ck.soft('C08.NUM (add_mul_pow2_m1 and add_square_pow2_m1 instantiated as they stand)'):
         transpose_rule(ck)
+    ck.rule('C08.GEN', 'generate_mul / generate_square instantiated for every member of their mode enumerations, widths 1 and 3, both endiannesses: the generated circuit computes a * b / a^2 on every operand value (every mode has a generator, the entry point dispatches on it, forwards the endianness and outputs exactly the returned bits)')
+    from .. import num_folds as _nf
+    _nf.fold_generate(ck, 'C08.GEN')
+    ck.floor('C08.GEN', 2)
     ck.rule('C08.FOLD', 'for-range templates instantiated for small widths, every operand value, both endiannesses, on a host circuit with gates of its own: add_mul_alter = a * b (n + m bits; n + m - 1 when a width is 1) over the folded two-number adders; add_sub_two_numbers (the subtraction of the Karatsuba recombination) = (a - b) mod 2^len(a); while-loop bit counters replaced by their contract')
     from .. import arith_folds
     bench = arith_folds.fold_mul(ck, 'C08.FOLD')
